@@ -213,10 +213,37 @@ def check_selection(ctx, fmt, d, stored, lost, arg, mouts):
                      dict(fmt=fmt, arg=canon_arg(arg), at=bad.tolist(), raw=int(exp_raw[tuple(bad)])),
                      bool(flags[tuple(bad)]), bool(exp[tuple(bad)]),
                      'boolean flag differs from (raw & mask(selected names)) != 0', spec=spec_mask)
+    if fmt == 'v4':
+        # raw flags and flags fetched JOINTLY in one dask graph (DaskLazyIndexer.get, the way mvftoms reads): the raw
+        # flags must still be stored | data_lost whatever the selection does to the flags that share their blocks
+        try:
+            from katdal.lazy_indexer import DaskLazyIndexer
+            jraw, jflags = [np.asarray(a) for a in DaskLazyIndexer.get([d.raw_flags, d.flags], np.s_[:, :, :])]
+        except Exception as e:
+            ctx.disagree('fmt=v4;what=joint_read_raises;exc=%s' % type(e).__name__, dict(fmt=fmt, arg=canon_arg(arg), joint=True),
+                         repr(e)[:200], 'arrays', 'DaskLazyIndexer.get([d.raw_flags, d.flags], ...) raised')
+            return
+        if not np.array_equal(jraw, exp_raw):
+            bad = np.argwhere(jraw != exp_raw)[0]
+            ctx.disagree('fmt=v4;what=raw_flags;read=joint', dict(fmt=fmt, arg=canon_arg(arg), joint=True, at=bad.tolist()),
+                         int(jraw[tuple(bad)]), int(exp_raw[tuple(bad)]),
+                         'raw flags read jointly with the flags differ from stored|data_lost (the flag selection leaks into them)',
+                         spec=int(exp_raw[tuple(bad)]))
+        if jflags.dtype != bool or not np.array_equal(jflags, exp):
+            ctx.disagree('fmt=v4;what=flags_bool;read=joint', dict(fmt=fmt, arg=canon_arg(arg), joint=True),
+                         str(jflags.dtype), 'bool', 'flags read jointly with the raw flags differ from (raw & mask) != 0',
+                         spec=spec_mask)
     ctx.traces_validated += 1
 
 
 def run(ctx):
+    import time
+    t_run = [time.time()]
+    walls = ctx.extra.setdefault('stream_wall_s', {})
+
+    def lap(name):
+        walls[name] = round(walls.get(name, 0.0) + time.time() - t_run[0], 1)
+        t_run[0] = time.time()
     del _INCOQ[:]
     args = gen_args(ctx)
     mcases = [[16, [1, wire_arg(a)]] for a in args]
@@ -245,11 +272,14 @@ def run(ctx):
                 ctx.count('fmt=' + fmt)
                 ctx.count('argkind=' + ('str' if isinstance(a, str) else 'list'))
             # interleavings with other select() calls: flag/weight selection must not move anything else
+            lap('args')
             interleave(ctx, fmt, d, stored, lost, base_vis)
+            lap('interleave')
             if fmt == 'v4':
                 # the first read of a new flags indexer by several threads at once (forced interleaving)
                 for trial in THREAD_TRIALS + [gen_thread_trial(ctx.rng) for _ in range(ctx.scale(1, 16))]:
                     run_threads(ctx, d, stored, lost, trial)
+                lap('threads')
     finally:
         shutil.rmtree(tmp, ignore_errors=True)
     ctx.exhaustive = False
@@ -271,6 +301,7 @@ def run(ctx):
     n = ctx.scale(14, 150)
     for i in range(n):
         run_v4cal(ctx, gen_v4cal(ctx.rng, ctx.tier, force=FORCED[i] if i < len(FORCED) else None))
+    lap('v4cal')
     # concatenated data sets (v4+v4, v3+v3, v2+v2, v3+v4) under histories of flag / weight selections
     for fn in sorted(glob.glob(os.path.join(corpus, '*.replay.json'))):
         case = json.load(open(fn)).get('case', {})
@@ -284,6 +315,7 @@ def run(ctx):
     n = ctx.scale(10, 90)
     for i in range(n):
         run_concat(ctx, gen_concat(ctx.rng, ctx.tier, force=CONCAT_FORCED[i] if i < len(CONCAT_FORCED) else None))
+    lap('concat')
     if ctx.tier == 'thorough' and ctx.model_ok and not ctx.searching:
         # extraction cross-check: the same cases through vm_compute inside Coq
         from vh import core
@@ -1297,6 +1329,13 @@ def run_concat(ctx, cfg):
     ftag = fmts[0] if len(set(fmts)) == 1 else 'mixed'      # kind of concatenation (the count is in the case)
     members = []
     hist = cfg['hist']
+    if not _have(ctx, 162):
+        # searching with the Python fallback concat_py: it states the documented behaviour of calls on the WHOLE only (a
+        # member selected directly re-applies its own earlier keywords on later direct calls - only the faithful model
+        # of wire 162 follows that), so the history ends before the first call made directly on a member
+        cut = next((i for i, st in enumerate(hist) if 'member' in st), len(hist))
+        hist = hist[:cut]
+        cfg = dict(cfg, hist=hist)
     try:
         try:
             members = build_concat(cfg, tmp)
